@@ -227,6 +227,10 @@ OpCheck(o) ==
     [] o.op = "len2bytes" ->
          IF o.raised # "" THEN <<"Len2Bytes", <<"raised", o.raised>> >>
          ELSE IF o.bytes = Len2Bytes(p) THEN << >> ELSE <<"Len2Bytes", <<o.bytes>> >>
+    [] o.op = "tow2utc" ->         \* tow2utc(tow) for the recorded times of week; o.lines = <<h, m, s, ms>> each
+         IF o.raised # "" THEN <<"Tow2Utc", <<"raised", o.raised>> >>
+         ELSE IF \A i \in 1 .. Len(o.idx) : o.lines[i] = Tow2Utc(o.idx[i]) THEN << >>
+         ELSE <<"Tow2Utc", <<"wrong time">> >>
     [] o.op = "names" ->
          IF Len(o.names) # Len(attrs) THEN <<"Names", <<"count", Len(o.names), Len(attrs)>> >>
          ELSE LET i == FirstBadName(o) IN
